@@ -185,4 +185,81 @@ theorem frechet_left_tight {n : ℕ} (op : α → α → α)
     calc i.val + 1 = (Finset.Iic i).card := by rw [Fin.card_Iic]
       _ ≤ _ := card_le_card hsub
 
+/-- the extremal coupling for the right bound at rank `i`: identity below `i`, anti-diagonal
+`m ↦ n-1+i-m` on `{i..n-1}` -/
+def antiDiagR {n : ℕ} (i : Fin n) (m : Fin n) : Fin n :=
+  if h : i ≤ m then ⟨n - 1 + i.val - m.val, by have := m.isLt; simp only [Fin.le_def] at h; omega⟩ else m
+
+theorem antiDiagR_invol {n : ℕ} (i : Fin n) : Function.Involutive (antiDiagR i) := by
+  intro m
+  unfold antiDiagR
+  by_cases h : i ≤ m
+  · have hm := m.isLt
+    have h' : i ≤ (⟨n - 1 + i.val - m.val, by simp only [Fin.le_def] at h; omega⟩ : Fin n) := by
+      simp only [Fin.le_def] at h ⊢; omega
+    simp only [h, h', dite_true]
+    apply Fin.ext
+    simp only [Fin.le_def] at h
+    simp only; omega
+  · simp [h]
+
+/-- **Frechet right bound is best possible**: the coupling `antiDiagR i` of the right-bounding
+selections makes the `i`-th smallest outcome equal to `R` (at most `n-1-i` outcomes strictly above,
+at least `n-i` outcomes at or above). -/
+theorem frechet_right_tight {n : ℕ} (op : α → α → α)
+    (hop : ∀ p p' q q', p ≤ p' → q ≤ q' → op p q ≤ op p' q')
+    (A B : Fin n → α) (hA : Monotone A) (hB : Monotone B) (i : Fin n) (R : α)
+    (hlb : ∀ j k : Fin n, j.val + k.val = n - 1 + i.val → R ≤ op (A j) (B k))
+    (hatt : ∃ j k : Fin n, j.val + k.val = n - 1 + i.val ∧ op (A j) (B k) = R) :
+    ∃ σ : Equiv.Perm (Fin n),
+      (univ.filter (fun m : Fin n => R < op (A m) (B (σ m)))).card ≤ n - 1 - i.val ∧
+      n - i.val ≤ (univ.filter (fun m : Fin n => R ≤ op (A m) (B (σ m)))).card := by
+  classical
+  obtain ⟨js, ks, hjk, hR⟩ := hatt
+  have hjs := js.isLt; have hks := ks.isLt; have hi := i.isLt
+  refine ⟨(antiDiagR_invol i).toPerm _, ?_, ?_⟩
+  · have hsub : (univ.filter (fun m : Fin n => R < op (A m) (B ((antiDiagR_invol i).toPerm _ m))))
+        ⊆ (Finset.Ici i).erase js := by
+      intro m hm
+      rw [Finset.mem_filter] at hm
+      obtain ⟨-, hm⟩ := hm
+      rw [Function.Involutive.coe_toPerm] at hm
+      rw [Finset.mem_erase, Finset.mem_Ici]
+      by_cases hmi : i ≤ m
+      · refine ⟨?_, hmi⟩
+        rintro rfl
+        have : antiDiagR i m = ks := by
+          unfold antiDiagR; simp only [hmi, dite_true]; apply Fin.ext; simp only; omega
+        rw [this, hR] at hm
+        exact lt_irrefl _ hm
+      · exfalso
+        have hm' : antiDiagR i m = m := by unfold antiDiagR; simp [hmi]
+        rw [hm'] at hm
+        have hjm : m ≤ js := by
+          simp only [Fin.le_def] at hmi ⊢; omega
+        have hkm : m ≤ ks := by
+          simp only [Fin.le_def] at hmi ⊢; omega
+        have : op (A m) (B m) ≤ R := by
+          rw [← hR]; exact hop _ _ _ _ (hA hjm) (hB hkm)
+        exact absurd hm (not_lt.mpr this)
+    have hjsmem : js ∈ Finset.Ici i := by
+      rw [Finset.mem_Ici, Fin.le_def]; omega
+    calc _ ≤ ((Finset.Ici i).erase js).card := card_le_card hsub
+      _ = (Finset.Ici i).card - 1 := card_erase_of_mem hjsmem
+      _ = n - 1 - i.val := by rw [Fin.card_Ici]; omega
+  · have hsub : Finset.Ici i ⊆
+        (univ.filter (fun m : Fin n => R ≤ op (A m) (B ((antiDiagR_invol i).toPerm _ m)))) := by
+      intro m hm
+      rw [Finset.mem_Ici] at hm
+      rw [Finset.mem_filter]
+      refine ⟨mem_univ _, ?_⟩
+      rw [Function.Involutive.coe_toPerm]
+      have hmlt := m.isLt
+      have : (antiDiagR i m).val = n - 1 + i.val - m.val := by unfold antiDiagR; simp [hm]
+      apply hlb
+      rw [this]; simp only [Fin.le_def] at hm; omega
+    calc n - i.val = (Finset.Ici i).card := by rw [Fin.card_Ici]
+      _ ≤ _ := card_le_card hsub
+
+
 end Pun.Frechet
